@@ -72,6 +72,56 @@ EV_LO, EV_HI = shard("lo", 0), shard("hi", 17)
 @harness(
     "C26",
     timeout=(120, 600),
+    functions=["events:trigger", "events:_add_handler", "events:_remove_handler", "association:Association.bind",
+               "association:Association.unbind"],
+    bounds="every one of the 17 notification events; 1..%d handlers; one of them (symbolic index) unbinds itself - or the "
+           "handler after it - while the event is being dispatched: the dispatch in progress still calls every handler that "
+           "was bound when it started, once, in binding order" % NH,
+    stubs=["real Association object (never started); handlers are recording closures"],
+    outside="unbinding from another thread (pre-emption inside trigger)",
+)
+def trigger_unbind_during_dispatch(ev: int, n: int, who: int, target_next: bool) -> bool:
+    """
+    pre: 0 <= ev < 17
+    pre: 1 <= n <= NH and 0 <= who < n
+    post: _ == True
+    """
+    event = NOTIFICATION[ev]
+    with untraced():
+        assoc = _assoc()
+    calls = []
+    bound = {}
+
+    def mk(i):
+        def h(e):
+            calls.append(i)
+            if i == who:
+                t = i + 1 if (target_next and i + 1 < n) else i
+                assoc.unbind(event, bound[t])
+        return h
+
+    for i in range(n):
+        bound[i] = mk(i)
+        assoc.bind(event, bound[i])
+    try:
+        evt.trigger(assoc, event, {"k": 1})
+    except Exception:
+        return False
+    if calls != list(range(n)):
+        return False
+    # a second dispatch no longer calls the handler that was unbound
+    del calls[:]
+    try:
+        evt.trigger(assoc, event, {"k": 2})
+    except Exception:
+        return False
+    gone = who + 1 if (target_next and who + 1 < n) else who
+    return calls == [i for i in range(n) if i != gone]
+
+
+@harness(
+    "C26",
+    timeout=(120, 600),
     shards=[{"lo": 0, "hi": 6}, {"lo": 6, "hi": 12}, {"lo": 12, "hi": 17}],
     functions=["events:trigger", "events:_add_handler", "events:Event.__init__", "association:Association.bind",
                "association:Association.get_handlers"],
